@@ -80,6 +80,15 @@ def replay_behaviour(beh):
                 else:
                     return (('write', k, 'accepted', feature(n)),
                             'op %d %s(%d bits): value %d was accepted' % (i, k, n, val))
+            elif k in ('set_uint_overflow', 'set_uint_negative', 'set_uint_negative_half'):
+                val = {'set_uint_overflow': 1 << n, 'set_uint_negative': -1, 'set_uint_negative_half': -(1 << (n - 1))}[k]
+                try:
+                    w.set_uint(val, n, op['at'])
+                except Exception:
+                    pass
+                else:
+                    return (('write', k, 'accepted', feature(n)),
+                            'op %d %s(%d bits at %d): value %d was accepted' % (i, k, n, op['at'], val))
             elif k == 'write_int_overflow':
                 mag = b2i(v[1:])
                 try:
